@@ -7,10 +7,13 @@
      * under Radius / KNearest / LSHNearest the history stores the converted rewards and marks the policy
        (is_contextual_binarized), and a marked policy converts nothing: the copies re-trained at prediction time
        see every reward converted exactly once.
-    ..._partial: TreeBandit re-applies the binarizer in its leaf policies (finding D6, refuted on the code);
-    Clusters by correspondence and the pre-converted twin relation. *)
+     * Clusters: the stored history holds the rewards converted once by the common binarizer and every per-cluster policy is
+       marked, so the policies trained on the stored history convert nothing;
+     * TreeBandit: the rewards filed in the leaves are converted once at fit time; with the documented behaviour (model flag
+       t_kf_rebin = false) the leaf policies created at prediction time have no binarizer.
+    ..._partial: the code's TreeBandit leaf policies re-apply the binarizer (finding D6, t_kf_rebin = true in the runs). *)
 From Coq Require Import List ZArith Bool Arith QArith Qcanon Permutation.
-From MW Require Import Num Assoc AssocFacts Rng Par CF CFInv CFClean CFForget CFSpec Matrix Lin Warm WarmInv Nbr NbrFacts NbrIndep LshFacts Clu Tree CellFacts Mab FacadeCF FacadeArms MoreFacts NumLaws CFAlg Sim Extra QcInst.
+From MW Require Import Num Assoc AssocFacts Rng Par CF CFInv CFClean CFForget CFSpec Matrix Lin Warm WarmInv Nbr NbrFacts NbrIndep LshFacts Clu Tree CellFacts Mab FacadeCF FacadeArms MoreFacts NumLaws CFAlg Sim Extra QcInst OrderFacts ExpIrrel LinInv FacadeLin LpInv NbrInv CluTreeInv FacadeAll ToyFacts C09All C10All LinForget LinSim MatrixFacts GaussJordan LinSpec NbrIndepGen CluIndep C17Lin WarmIdem C14More LshScale TreeLeaf Rename.
 Import ListNotations.
 
 Theorem C14_binarizer_commutes_with_training :
@@ -36,5 +39,44 @@ Theorem C14_neighbourhood_history_stores_converted_rewards_partial :
   end.
 Proof. exact @neighbourhood_stores_converted_rewards. Qed.
 Print Assumptions C14_neighbourhood_history_stores_converted_rewards_partial.
+
+Theorem C14_clusters_store_converted_rewards_and_mark_every_policy :
+  forall (R A G : Type) (s : (@clu R A G)) (l0 : (@lp R A G)) (c0 : (@cf R A)) (t : list (@lp R A G)) (ds : list A) (rs : list R),
+  l0 = LCf c0 ->
+  k_lps s = l0 :: t ->
+  lp_is_ts_binz l0 = true ->
+  snd (clu_binarize s ds rs) = binarize (set_ctxbin c0 false) ds rs /\
+  fst (clu_binarize s ds rs) = map (fun l : (@lp R A G) => fst (lp_binarize l ds rs)) (k_lps s) /\
+  (forall l : (@lp R A G),
+   In l (fst (clu_binarize s ds rs)) ->
+   forall c : (@cf R A), l = LCf c -> lp_is_ts_binz l = true -> c_ctxbin c = true).
+Proof. exact @clusters_store_converted_rewards. Qed.
+Print Assumptions C14_clusters_store_converted_rewards_and_mark_every_policy.
+
+Theorem C14_tree_stores_converted_rewards :
+  forall (R A : Type) (s : (@tree R A)) (ds : list A) (rs : list R) (f : A -> R -> R),
+  c_kind (t_lp s) = KThompson ->
+  c_binz (t_lp s) = Some f ->
+  tree_binarize s ds rs = (set_ctxbin (t_lp s) true, binarize (set_ctxbin (t_lp s) false) ds rs).
+Proof. exact @tree_stores_converted_rewards. Qed.
+Print Assumptions C14_tree_stores_converted_rewards.
+
+Theorem C14_tree_leaf_policy_has_no_binarizer_in_documented_behaviour :
+  forall (R A G : Type) (N : Num R) (aeqb : A -> A -> bool) (RG : RngOps R G) 
+    (s : (@tree R A)) (g : G) (a : A) (rewards : list R),
+  t_kf_rebin s = false ->
+  leaf_expectation N aeqb RG s g a rewards =
+  leaf_expectation N aeqb RG
+    {|
+      t_kf_rebin := false;
+      t_kf_sharedrng := t_kf_sharedrng s;
+      t_arms := t_arms s;
+      t_lp := set_binz (t_lp s) None;
+      t_exp := t_exp s;
+      t_leaves := t_leaves s;
+      t_nf := t_nf s
+    |} g a rewards.
+Proof. exact @tree_leaf_policy_has_no_binarizer. Qed.
+Print Assumptions C14_tree_leaf_policy_has_no_binarizer_in_documented_behaviour.
 
 
